@@ -1746,6 +1746,8 @@ sexp sexp_inexact_sqrt (sexp ctx, sexp self, sexp_sint_t n, sexp z) {
 #if SEXP_USE_BIGNUMS
 sexp sexp_exact_sqrt (sexp ctx, sexp self, sexp_sint_t n, sexp z) {
   sexp_gc_var2(res, rem);
+  if (sexp_flonump(z) && !isfinite(sexp_flonum_value(z)))
+    return sexp_type_exception(ctx, self, SEXP_FIXNUM, z);
   sexp_gc_preserve2(ctx, res, rem);
   if (sexp_bignump(z)) {
     res = sexp_bignum_sqrt(ctx, z, &rem);
